@@ -10,8 +10,6 @@ Local Open Scope N_scope.
 
 (* ================================================================== A. the matcher *)
 
-Definition lits (l : str) : list seg := map (fun c => SItem (IOne (AChr c))) l.
-
 Lemma m_segs_lits : forall l r s caps, m_segs (lits l ++ r) (l ++ s) caps = m_segs r s caps.
 Proof.
   induction l as [|c l IH]; intros r s caps; [reflexivity|].
@@ -253,11 +251,6 @@ Qed.
 
 (* ================================================================== E. docker_tag *)
 
-(* the shape the extracted tag pattern must have (checked against the literal below) *)
-Definition tag_shape (mid end_ : str) : list seg :=
-  SItem (IOne (AChr slash)) :: SGroup [IPlus AAny] ::
-  lits (slash :: mid ++ [slash]) ++ SGroup [IPlus AAny] :: lits (slash :: end_).
-
 Lemma tag_extract : forall base mid end_ repo tag,
   repo <> [] -> forallb (atom_ok AAny) repo = true ->
   tag <> [] -> forallb (atom_ok AAny) tag = true -> count_slash tag = 0%nat ->
@@ -270,8 +263,8 @@ Proof.
   cbn [m_segs m_items]. cbn [atom_ok]. rewrite N.eqb_refl.
   apply group_any_step; [exact Hr|exact Hrok| |].
   - rewrite need_app, need_lits. cbn [need seg_need items_need item_need atom_need]. rewrite need_lits.
-    rewrite !count_slash_cons_slash, !count_slash_app, !count_slash_cons_slash, Htc.
-    rewrite count_slash_app. unfold count_slash at 3. cbn. lia.
+    repeat (rewrite count_slash_cons_slash || rewrite count_slash_app).
+    change (count_slash []) with 0%nat. rewrite Htc. lia.
   - replace (slash :: mid ++ slash :: tag ++ slash :: end_)
       with ((slash :: mid ++ [slash]) ++ tag ++ slash :: end_)
       by (cbn; rewrite <- app_assoc; reflexivity).
@@ -336,9 +329,7 @@ Proof.
     - cbn [join_slash join_on]. unfold bp. apply join_base; [exact tag_base_normal|].
       repeat apply normal_path_app; assumption || exact tag_mid_normal || exact tag_end_normal.
     - repeat constructor; try discriminate.
-      + apply join_root_lit_nonnil. exact tag_base_normal.
-      + apply normal_path_nonnil. exact tag_mid_normal.
-      + apply normal_path_nonnil. exact tag_end_normal. }
+      apply join_root_lit_nonnil. exact tag_base_normal. }
   exists bp. unfold roundtrip. rewrite Hbp. f_equal.
   unfold name_from_path, name_from_path_tag, rx_extract. cbn [base_path]. fold base.
   rewrite (compile_quoted base _ _ tag_re_compiles tag_re_head).
@@ -347,10 +338,6 @@ Proof.
 Qed.
 
 (* ================================================================== F. sharded_docker_blob *)
-
-Definition blob_shape (alg end_ : str) : list seg :=
-  lits (slash :: alg ++ [slash]) ++
-  SItem (IOne AAny) :: SItem (IOne AAny) :: SItem (IOne (AChr slash)) :: SGroup [IPlus AAny] :: lits (slash :: end_).
 
 Lemma blob_extract : forall base alg end_ c1 c2 name,
   atom_ok AAny c1 = true -> atom_ok AAny c2 = true ->
@@ -393,8 +380,8 @@ Proof.
   - eapply forallb_impl; [|exact Hb]. intros x Hx. apply andb_true_iff in Hx as [Hx _]. apply name_byte_any. exact Hx.
   - eapply forallb_nochar; [|exact Hb]. intros x Hx ->. apply andb_true_iff in Hx as [_ Hx]. discriminate.
   - cbn [prefixb] in Hdd. unfold is_normal, is_nil, is_dot, is_dotdot. cbn [str_eqb].
-    rewrite !andb_true_r in *. rewrite (N.eqb_sym c1), (N.eqb_sym c2) in Hdd.
-    destruct (c1 =? dot); cbn; [|reflexivity]. exact Hdd.
+    rewrite (N.eqb_sym dot c1), (N.eqb_sym dot c2) in Hdd.
+    destruct (c1 =? dot), (c2 =? dot); cbn in *; congruence.
   - unfold is_normal, is_nil, is_dot, is_dotdot. cbn [str_eqb]. rewrite !andb_false_r. reflexivity.
 Qed.
 
@@ -417,11 +404,8 @@ Proof.
     - cbn [join_slash join_on]. unfold bp. apply join_base; [exact blob_base_normal|].
       repeat apply normal_path_app; try exact blob_alg_normal; try exact blob_end_normal;
         apply normal_path_single; assumption.
-    - repeat constructor; try discriminate.
-      + apply join_root_lit_nonnil. exact blob_base_normal.
-      + apply normal_path_nonnil. exact blob_alg_normal.
-      + rewrite Hn. discriminate.
-      + apply normal_path_nonnil. exact blob_end_normal. }
+    - repeat constructor; try discriminate; try (rewrite Hn; discriminate).
+      apply join_root_lit_nonnil. exact blob_base_normal. }
   exists bp. unfold roundtrip. rewrite Hbp. f_equal.
   unfold name_from_path, name_from_path_blob, rx_extract. cbn [base_path]. fold base.
   rewrite (compile_quoted base _ _ blob_re_compiles blob_re_head).
@@ -471,28 +455,34 @@ Proof.
   - apply roundtrip_ident_abs_root; assumption.
 Qed.
 
+Lemma roundtrip_split : forall sch root name bp n',
+  roundtrip sch root name = (Ok bp, Ok n') ->
+  blob_path sch root name = Ok bp /\ name_from_path sch root bp = Ok n'.
+Proof.
+  intros sch root name bp n' H. unfold roundtrip in H.
+  destruct (blob_path sch root name) as [b| |]; try discriminate.
+  inversion H as [[Hb Hn]]. split; reflexivity.
+Qed.
+
 Theorem roundtrip_tag : forall root name, valid_root root = true -> valid_tag_name name = true ->
   exists bp, blob_path STag root name = Ok bp /\ name_from_path STag root bp = Ok name.
 Proof.
   intros root name Hr Hn. destruct (roundtrip_all STag root name Hr Hn) as [bp H].
-  unfold roundtrip in H. destruct (blob_path STag root name) as [b| |]; try discriminate.
-  inversion H; subst. exists bp. split; [reflexivity|assumption].
+  exists bp. apply roundtrip_split. exact H.
 Qed.
 
 Theorem roundtrip_blob : forall root name, valid_root root = true -> valid_blob_name name = true ->
   exists bp, blob_path SBlob root name = Ok bp /\ name_from_path SBlob root bp = Ok name.
 Proof.
   intros root name Hr Hn. destruct (roundtrip_all SBlob root name Hr Hn) as [bp H].
-  unfold roundtrip in H. destruct (blob_path SBlob root name) as [b| |]; try discriminate.
-  inversion H; subst. exists bp. split; [reflexivity|assumption].
+  exists bp. apply roundtrip_split. exact H.
 Qed.
 
 Theorem roundtrip_identity : forall root name, valid_root root = true -> valid_ident_name name = true ->
   exists bp, blob_path SIdent root name = Ok bp /\ name_from_path SIdent root bp = Ok name.
 Proof.
   intros root name Hr Hn. destruct (roundtrip_all SIdent root name Hr Hn) as [bp H].
-  unfold roundtrip in H. destruct (blob_path SIdent root name) as [b| |]; try discriminate.
-  inversion H; subst. exists bp. split; [reflexivity|assumption].
+  exists bp. apply roundtrip_split. exact H.
 Qed.
 
 (* what a listing reports: two valid names stored under different names have different paths *)
@@ -502,8 +492,9 @@ Theorem blob_path_injective : forall sch root n1 n2 bp,
 Proof.
   intros sch root n1 n2 bp Hr H1 H2 E1 E2.
   destruct (roundtrip_all sch root n1 Hr H1) as [b1 R1]. destruct (roundtrip_all sch root n2 Hr H2) as [b2 R2].
-  unfold roundtrip in R1, R2. rewrite E1 in R1. rewrite E2 in R2.
-  inversion R1 as [[Hb1 Hn1]]. inversion R2 as [[Hb2 Hn2]]. rewrite Hn1 in Hn2. inversion Hn2. reflexivity.
+  apply roundtrip_split in R1 as [B1 N1]. apply roundtrip_split in R2 as [B2 N2].
+  rewrite E1 in B1. rewrite E2 in B2. inversion B1; subst b1. inversion B2; subst b2.
+  rewrite N1 in N2. inversion N2. reflexivity.
 Qed.
 
 (* lower-case hex digests (what Kraken stores under sharded_docker_blob) are valid names *)
@@ -518,8 +509,9 @@ Proof.
       try (apply N.leb_le; lia); apply N.eqb_neq; lia. }
   apply andb_true_iff. split.
   - eapply forallb_impl; [|exact Hh]. intros x Hx. apply Hb. exact Hx.
-  - destruct n as [|c1 [|c2 t]]; try reflexivity. cbn [prefixb]. cbn in Hh.
-    apply andb_true_iff in Hh as [H1 _]. apply Hb in H1 as [_ H1]. rewrite N.eqb_sym, H1. reflexivity.
+  - destruct n as [|c1 [|c2 t]]; [reflexivity|cbn [prefixb]; rewrite andb_false_r; reflexivity|].
+    cbn [prefixb]. cbn [is_hex forallb] in Hh.
+    apply andb_true_iff in Hh as [H1 _]. apply Hb in H1 as [_ H1]. rewrite (N.eqb_sym dot c1), H1. reflexivity.
 Qed.
 
 (* executable form used on observed round trips *)
